@@ -83,6 +83,7 @@ impl SymbolTable {
             ctx_is_new(final(self).contexts@.last(), Scope::Local),
             sym_wf(*final(self)), sym_contexts(*final(self)) == sym_contexts(*old(self)) + 1, sym_depth(*final(self)) == 1,
             sym_params(*final(self)).len() == 0, sym_outer(*final(self)) == sym_outer(*old(self)).push(sym_depth(*old(self))),
+            sym_outer_sizes(*final(self)) == sym_outer_sizes(*old(self)).push(sym_max_size(*old(self)) as int),
     {
 //@BODY file=symbols.rs fn=new_context impl=SymbolTable sig="pub fn new_context(&mut self)" rules="R4"
         proof {
@@ -93,6 +94,10 @@ impl SymbolTable {
             assert(a.len() == b.len());
             assert forall|i: int| 0 <= i < a.len() implies a[i] == b[i] by { assert(self.contexts@.drop_last()[i] == old(self).contexts@[i]); }
             assert(a =~= b);
+            let a2 = sym_outer_sizes(*self); let b2 = sym_outer_sizes(*old(self)).push(sym_max_size(*old(self)) as int);
+            assert(a2.len() == b2.len());
+            assert forall|i: int| 0 <= i < a2.len() implies a2[i] == b2[i] by { assert(self.contexts@.drop_last()[i] == old(self).contexts@[i]); }
+            assert(a2 =~= b2);
         }
     }
 
@@ -106,6 +111,7 @@ impl SymbolTable {
             final(self).contexts@ == old(self).contexts@.drop_last(), n == sym_max_size(*old(self)),
             sym_wf(*final(self)), sym_contexts(*final(self)) == sym_contexts(*old(self)) - 1,
             sym_depth(*final(self)) == sym_outer(*old(self)).last(), sym_outer(*final(self)) == sym_outer(*old(self)).drop_last(),
+            sym_max_size(*final(self)) as int == sym_outer_sizes(*old(self)).last(), sym_outer_sizes(*final(self)) == sym_outer_sizes(*old(self)).drop_last(),
     {
 //@BODY file=symbols.rs fn=leave_context impl=SymbolTable sig="pub fn leave_context(&mut self) -> usize" rules="R4"
     }
@@ -154,7 +160,7 @@ impl SymbolTable {
             sym_globals_kept(*old(self), *final(self)),
             //@VACUITY
             sym_others_same(*old(self), *final(self)), sym_wf(*final(self)),
-            sym_depth(*final(self)) == sym_depth(*old(self)), sym_contexts(*final(self)) == sym_contexts(*old(self)), sym_outer(*final(self)) == sym_outer(*old(self)),
+            sym_depth(*final(self)) == sym_depth(*old(self)), sym_contexts(*final(self)) == sym_contexts(*old(self)), sym_outer(*final(self)) == sym_outer(*old(self)), sym_outer_sizes(*final(self)) == sym_outer_sizes(*old(self)),
             r is Ok ==> ctx_after_define(old(self).contexts@.last(), name@, final(self).contexts@.last())
                 && r->Ok_0 == sym_define_symbol(*old(self), name@) && sym_params(*final(self)) == sym_params(*old(self)).push(name@),
             r is Err ==> final(self).contexts@ =~= old(self).contexts@,
@@ -172,7 +178,7 @@ impl SymbolTable {
             sym_others_same(*old(self), *final(self)), sym_wf(*final(self)),
             ctx_view(final(self).contexts@.last()) == ctx_view(old(self).contexts@.last()).push(Seq::<Seq<char>>::empty()),
             final(self).contexts@.last().scope == old(self).contexts@.last().scope, final(self).contexts@.last().max_size == old(self).contexts@.last().max_size,
-            sym_depth(*final(self)) == sym_depth(*old(self)) + 1, sym_contexts(*final(self)) == sym_contexts(*old(self)), sym_outer(*final(self)) == sym_outer(*old(self)),
+            sym_depth(*final(self)) == sym_depth(*old(self)) + 1, sym_contexts(*final(self)) == sym_contexts(*old(self)), sym_outer(*final(self)) == sym_outer(*old(self)), sym_outer_sizes(*final(self)) == sym_outer_sizes(*old(self)),
     {
 //@BODY file=symbols.rs fn=enter_scope impl=SymbolTable sig="pub fn enter_scope(&mut self)" rules="R4"
         proof {
@@ -196,7 +202,7 @@ impl SymbolTable {
             sym_others_same(*old(self), *final(self)), sym_wf(*final(self)),
             ctx_view(final(self).contexts@.last()) == ctx_view(old(self).contexts@.last()).drop_last(),
             final(self).contexts@.last().scope == old(self).contexts@.last().scope, final(self).contexts@.last().max_size == old(self).contexts@.last().max_size,
-            sym_depth(*final(self)) == sym_depth(*old(self)) - 1, sym_contexts(*final(self)) == sym_contexts(*old(self)), sym_outer(*final(self)) == sym_outer(*old(self)),
+            sym_depth(*final(self)) == sym_depth(*old(self)) - 1, sym_contexts(*final(self)) == sym_contexts(*old(self)), sym_outer(*final(self)) == sym_outer(*old(self)), sym_outer_sizes(*final(self)) == sym_outer_sizes(*old(self)),
     {
 //@BODY file=symbols.rs fn=leave_scope impl=SymbolTable sig="pub fn leave_scope(&mut self)" rules="R4"
         proof {
@@ -240,9 +246,11 @@ impl SymbolTable {
 /// only the current context changed (and it still has a scope): well-formedness and the measures of the enclosing
 /// contexts carry over
 pub proof fn lemma_current_changed(a: SymbolTable, b: SymbolTable)
-    requires sym_wf(a), sym_others_same(a, b), ctx_view(b.contexts@.last()).len() >= 1, ctx_sized(b.contexts@.last())
-    ensures sym_wf(b), sym_outer(b) == sym_outer(a), sym_contexts(b) == sym_contexts(a)
+    requires sym_wf(a), sym_others_same(a, b), ctx_view(b.contexts@.last()).len() >= 1, ctx_sized(b.contexts@.last()),
+             b.contexts@.last().scope == a.contexts@.last().scope
+    ensures sym_wf(b), sym_outer(b) == sym_outer(a), sym_outer_sizes(b) == sym_outer_sizes(a), sym_contexts(b) == sym_contexts(a)
 {
+    if b.contexts@.len() > 1 { assert(b.contexts@.drop_last()[0] == a.contexts@.drop_last()[0]); }
     assert forall|i: int| 0 <= i < b.contexts@.len() implies ctx_view(#[trigger] b.contexts@[i]).len() >= 1 && ctx_sized(b.contexts@[i]) by {
         if i < b.contexts@.len() - 1 { assert(b.contexts@.drop_last()[i] == a.contexts@.drop_last()[i]); }
     }
@@ -250,6 +258,10 @@ pub proof fn lemma_current_changed(a: SymbolTable, b: SymbolTable)
     assert(x.len() == y.len());
     assert forall|i: int| 0 <= i < x.len() implies x[i] == y[i] by { assert(b.contexts@.drop_last()[i] == a.contexts@.drop_last()[i]); }
     assert(x =~= y);
+    let x2 = sym_outer_sizes(b); let y2 = sym_outer_sizes(a);
+    assert(x2.len() == y2.len());
+    assert forall|i: int| 0 <= i < x2.len() implies x2[i] == y2[i] by { assert(b.contexts@.drop_last()[i] == a.contexts@.drop_last()[i]); }
+    assert(x2 =~= y2);
 }
 
 /// O09.L5  what a name means at table level (current context, else - inside a function - the globals): a block
